@@ -19,6 +19,7 @@ def generate(rng, tier):
     for _ in range(n):
         plain = rng.random() < 0.25
         g = muxgen.Gen(rng, heads=not plain, plain_ok=plain, max_depth=3)
+        g.no_early = plain and len(cases) % 2 == 0     # inside the timed plain model of tee_map (no take/first)
         nb = rng.choice([1, 2, 2, 3, 3, 4])
         brs = []
         for _ in range(nb):
@@ -146,12 +147,20 @@ def coq_term(case, obs):
     if case['ctx'] == 'plain':
         if 'raised' in obs:
             return 'MCRaised'
-        return muxlib.coq_muxcase(case['ast'], obs['trace'], obs)
+        main = muxlib.coq_muxcase(case['ast'], obs['trace'], obs)
+        p = obs.get('plain')
+        if not main.startswith('MC ') or not isinstance(p, dict) or 'raised' in p or p.get('end') != 'completed' or p.get('sub'):
+            return main
+        # the timed plain model of tee_map (Mux/PlainTimed.v) against the real plain run, step by step
+        from harness.pyval import coq_val
+        cl = lambda l: '[%s]' % '; '.join(coq_val(x) for x in l)
+        run = '(%s, [%s], %s)' % (cl(obs['items']), '; '.join(cl(st) for st in p['steps']), cl(p['final']))
+        return 'MCAnd (%s) (MCPlainT %s [%s])' % (main, muxlib.coq_pipe(case['ast']), run)
     return muxlib.coq_muxcase(case['ast'], case['trace'], obs)
 
 
 CLAIM = {
-    'text': "Theorems (Coq) for every list of n >= 1 branches (arbitrary refined machines), the three joins and every input: slot-level tee (shared queue, cells at key[0]*n+i) refines the per-key product with n private cells; inside the tee every branch evolves exactly as when run alone; the timed tee output is the join folded over source events (branch order within an event) of the independently run branches' outputs, and at completion the join of their completion outputs; the joins are characterised per mode. Oracle: every branch is ALSO run alone on the real code and joined by a Python join spec, per key and per source event; plain tee included.",
+    'text': "Theorems (Coq) for every list of n >= 1 branches (arbitrary refined machines), the three joins and every input: slot-level tee (shared queue, cells at key[0]*n+i) refines the per-key product with n private cells; inside the tee every branch evolves exactly as when run alone; the timed tee output is the join folded over source events (branch order within an event) of the independently run branches' outputs, and at completion the join of their completion outputs; the joins are characterised per mode; tee_map on a PLAIN observable, written as list functions (the join folded over the source items of the branches' own timed plain outputs), equals the per-key local machine of the multiplexed tee_map step by step (C08_plain_tee_equals_keyed_tee; branches without take/first), and the real plain tee runs are compared with that list semantics step by step. Oracle: every branch is ALSO run alone on the real code and joined by a Python join spec, per key and per source event; plain tee included.",
     'note': 'Trusted: Coq kernel+VM; hand-written model; branches must not leak unhandled mux errors upstream of the tee (errors_handled).',
     'technique': 'Coq proof (forward-simulation refinement of a slot-level model by per-key local machines, list-level induction) + vm_compute correspondence against /repo + model-free oracle',
 }
